@@ -16,9 +16,66 @@ PINS = "pins/C05.v"
 TRUSTED = ["harness `vh tir` over the synthetic environment E0; vlib/tirtok.py", "the whole-program statement (accepted iff well typed) is decided per program, not proved in general"]
 
 
+PLACES = {  # type of the place -> [(name of the place, QML text with %s for the bound expression)]; the FIRST of each list is a plain property: the reference
+    "int": [("QSpinBox.value", "QSpinBox { value: %s }"), ("font.pointSize", "QLabel { font.pointSize: %s }"), ("font { pointSize }", "QLabel { font {\n bold: true\n pointSize: %s\n } }"),
+            ("geometry.x", "QLabel { geometry.x: %s }"), ("minimumSize.width", "QLabel { minimumSize {\n width: %s\n height: 3\n } }"), ("sizePolicy.horizontalStretch", "QLabel { sizePolicy {\n horizontalPolicy: QSizePolicy.Expanding\n verticalPolicy: QSizePolicy.Fixed\n horizontalStretch: %s\n } }"),
+            ("QSlider.maximum", "QSlider { maximum: %s }"), ("contentsMargins.left", "QVBoxLayout { contentsMargins.left: %s }")],
+    "bool": [("QLabel.wordWrap", "QLabel { wordWrap: %s }"), ("font.bold", "QLabel { font.bold: %s }"), ("font { italic }", "QLabel { font {\n pointSize: 9\n italic: %s\n } }"),
+             ("QCheckBox.checked", "QCheckBox { checked: %s }")],
+    "QString": [("QLabel.text", "QLabel { text: %s }"), ("font.family", "QLabel { font.family: %s }"), ("font { family }", "QLabel { font {\n family: %s\n bold: false\n } }"),
+                ("QWidget.toolTip", "QPushButton { toolTip: %s }"), ("icon.name", "QPushButton { icon.name: %s }"), ("windowIcon.name", "QWidget { windowIcon.name: %s }")],
+}
+PLACE_EXPRS = [("srcS.text", "QString, read at run time"), ("srcB.checked", "bool, read at run time"), ("srcI.value", "int, read at run time"), ("srcD.value", "double, read at run time"),
+               ("srcS.text + \"!\"", "QString, computed"), ("srcI.value + 1", "int, computed"), ("!srcB.checked", "bool, computed"), ("srcI.value > 1 ? srcS.text : \"-\"", "QString, chosen"),
+               ("{ if (srcB.checked) { return srcI.value } return 0 }", "int, block"), ("{ return srcS.text }", "QString, block"),
+               ("\"s\"", "string constant"), ("true", "bool constant"), ("1", "integer constant"), ("1.5", "number constant"), ("1 + 2", "integer constant, folded"), ("\"a\" + \"b\"", "string constant, folded")]
+
+
+def result_type_places(ctx):
+    """result type vs property type (uigen/expr.rs verify_code_return_type): the verdict 'the value does not fit the type of the place' is a matter of the two TYPES --
+    the same expression bound to a plain property, to a member of a grouped value (dotted or braced) or to another property of the same type gets the same verdict,
+    whether it is a constant or computed at run time"""
+    from . import qml
+    vh = ctx.need_harness()
+    docs, meta = [], []
+    for ty, places in PLACES.items():
+        for pname, tmpl in places:
+            for e, what in PLACE_EXPRS:
+                docs.append("import qmluic.QtWidgets\nQWidget {\n  QLineEdit { id: srcS }\n  QCheckBox { id: srcB }\n  QSpinBox { id: srcI }\n  QDoubleSpinBox { id: srcD }\n  "
+                            "QVBoxLayout {\n    " + (tmpl % e if not tmpl.startswith("QVBoxLayout") else "QLabel { }") + "\n  }\n" + ("  " + tmpl % e + "\n" if tmpl.startswith("QVBoxLayout") else "") + "}\n")
+                meta.append((ty, pname, e, what))
+    import os
+    os.environ["VERIF_EXTRA_METATYPES"] = ""
+    res = qml.run_docs(vh, docs, mode="generate")
+    verdict = {}
+    for (ty, pname, e, what), d, r in zip(meta, docs, res):
+        ctx.count(("result-type-place", pname, e), True)
+        if not isinstance(r, dict) or "diags" not in r:
+            ctx.violation("no result for a binding of %s to %s" % (e, pname), {"qml": d, "impl_output": str(r)[:300]})
+            continue
+        errs = [x["msg"] for x in r["diags"] if x["kind"] == "error"]
+        if r.get("syntax_error"):
+            errs = ["syntax error"]
+        verdict[(ty, pname, e)] = ("fits" if not errs else "mismatch" if any("type mismatch" in m or "cannot deduce" in m for m in errs) else "other:" + errs[0][:60], d, errs)
+    for ty, places in PLACES.items():
+        ref = places[0][0]
+        for pname, _ in places[1:]:
+            for e, what in PLACE_EXPRS:
+                a, b = verdict.get((ty, ref, e)), verdict.get((ty, pname, e))
+                if a is None or b is None or a[0].startswith("other") or b[0].startswith("other"):
+                    ctx.dist("result-type-place-not-judged")
+                    continue
+                ctx.dist("result-type-place-%s" % a[0])
+                if a[0] != b[0]:
+                    ctx.violation("%s (%s) bound to %s, a place of type %s: %s; bound to the plain property %s of the same type: %s" % (e, what, pname, ty, b[0], ref, a[0]),
+                                  {"qml": b[1], "impl_output": b[2], "oracle_output": a[2], "reference_qml": a[1], "theorem_or_correspondence": "S: result type vs property type in every place"})
+
+
 def run(ctx):
     ctx.proof_leg(TARGETS, PINS, k_targets=tircheck.K_TARGETS + ["spec/TypingCase.vo"])
     rng = ctx.rng
+    if not ctx.replay:
+        result_type_places(ctx)
     table = tircheck.enum_operator_table()
     if ctx.replay:
         table = [(ctx.replay["case"]["program"], "replay")]
